@@ -1365,15 +1365,13 @@ export class AllOfRuntype extends BaseRuntype {
       // intersection of non-object types: every member accepted the same primitive
       return input;
     }
-    let acc = {};
+    // every member projects the same input; merge the projections the way unions do, so that
+    // nested objects keep the parts each member declares and arrays, Dates, Maps stay what they are
+    const items = [];
     for (const it of this.schemas) {
-      const parsed = it.parseAfterValidation(ctx, input);
-      if (typeof parsed !== "object") {
-        throw new Error("INTERNAL ERROR: AllOfParser: Expected object");
-      }
-      acc = { ...acc, ...parsed };
+      items.push(it.parseAfterValidation(ctx, input));
     }
-    return acc;
+    return deepmerge(...items);
   }
   reportDecodeError(ctx: ReportContext, input: unknown): DecodeError[] {
     const acc = [];
